@@ -8,5 +8,6 @@ package webbundleid
 // the caller's key (and the memory behind it) untouched.
 //@ func GetWebBundleId
 //@   props C07 C18
+//@   requires len(ed25519publicKey) + 3 <= 281474976710656
 //@   ensures[formula] exists k []byte :: {bytes(k)} len(k) == len(ed25519publicKey) + 3 && (forall i int :: 0 <= i && i < len(ed25519publicKey) ==> k[i] == old(ed25519publicKey[i])) && k[len(ed25519publicKey)] == 0 && k[len(ed25519publicKey) + 1] == 1 && k[len(ed25519publicKey) + 2] == 2 && result == strLower(base32std(bytes(k)))
 //@   assigns nothing
